@@ -20,21 +20,73 @@ theorem witness_starts_with_raw :
     contains CaseMap.ascii (.bytes [0xFF]) (.bytes [0xEF, 0xBF, 0xBD]) none = .ok (.bool true) ∧
     specStartsWith (decodeLossy [0xFF]) (decodeLossy [0xEF, 0xBF, 0xBD]) false = false := by decide
 
-/-- `affix_ci:D_starts_with_charwise` (byte-length pre-check): `starts_with("Ⱥ", "ⱥ",
-    case_sensitive: false)` is `false` because `"ⱥ"` has more bytes than `"Ⱥ"`, although both
-    lower-case to `"ⱥ"` (and `ends_with`/`contains` say `true`). -/
-theorem witness_starts_with_ci_length :
-    startsWith strokeMap (.bytes [0xC8, 0xBA]) (.bytes [0xE2, 0xB1, 0xA5]) (some (.bool false)) = .ok (.bool false) ∧
+/-- `affix_ci:D_starts_with_charwise` (repaired in 2b95bd7), byte-length pre-check:
+    `starts_with("Ⱥ", "ⱥ", case_sensitive: false)` was `false` because `"ⱥ"` has more bytes than
+    `"Ⱥ"`; it is now `true`, like `ends_with` (both lower-case to `"ⱥ"`), and the law holds. -/
+theorem fixed_starts_with_ci_length :
+    startsWith strokeMap (.bytes [0xC8, 0xBA]) (.bytes [0xE2, 0xB1, 0xA5]) (some (.bool false)) = .ok (.bool true) ∧
     endsWith strokeMap (.bytes [0xC8, 0xBA]) (.bytes [0xE2, 0xB1, 0xA5]) (some (.bool false)) = .ok (.bool true) ∧
-    downcase strokeMap [0xC8, 0xBA] = downcase strokeMap [0xE2, 0xB1, 0xA5] := by decide
+    specStartsWith (downcaseCp strokeMap (decodeLossy [0xC8, 0xBA]))
+      (downcaseCp strokeMap (decodeLossy [0xE2, 0xB1, 0xA5])) true = true := by decide
 
-/-- `affix_ci:D_starts_with_charwise` (zip truncation): `starts_with("ⱥ", "Ⱥx", case_sensitive:
-    false)` is `true`: the char iterators are zipped, so the comparison stops after the one char of
-    `value`; `"ⱥ"` does not start with `"ⱥx"`. -/
-theorem witness_starts_with_ci_zip :
-    startsWith strokeMap (.bytes [0xE2, 0xB1, 0xA5]) (.bytes [0xC8, 0xBA, 0x78]) (some (.bool false)) = .ok (.bool true) ∧
+/-- `affix_ci:D_starts_with_charwise` (repaired in 2b95bd7), zip truncation:
+    `starts_with("ⱥ", "Ⱥx", case_sensitive: false)` was `true` (the zipped iterators stopped after
+    the one char of `value`); it is now `false`: `"ⱥ"` does not start with `"ⱥx"`. -/
+theorem fixed_starts_with_ci_zip :
+    startsWith strokeMap (.bytes [0xE2, 0xB1, 0xA5]) (.bytes [0xC8, 0xBA, 0x78]) (some (.bool false)) = .ok (.bool false) ∧
     specStartsWith (downcaseCp strokeMap (decodeLossy [0xE2, 0xB1, 0xA5]))
-      (downcaseCp strokeMap (decodeLossy [0xC8, 0xBA, 0x78])) true = false := by decide
+      (downcaseCp strokeMap (decodeLossy [0xC8, 0xBA, 0x78])) false = true := by decide
+
+/-- `affix_ci:D_starts_with_invalid_utf8`. The char iterator of case-insensitive `starts_with`
+    rejects every invalid byte, `ends_with`/`contains` compare the lossily decoded strings:
+    `starts_with("\xff", "\xff", case_sensitive: false)` is `false` although the case-sensitive
+    call and the two other functions say `true`. -/
+theorem witness_starts_with_ci_invalid :
+    startsWith CaseMap.ascii (.bytes [0xFF]) (.bytes [0xFF]) (some (.bool false)) = .ok (.bool false) ∧
+    startsWith CaseMap.ascii (.bytes [0xFF]) (.bytes [0xFF]) none = .ok (.bool true) ∧
+    endsWith CaseMap.ascii (.bytes [0xFF]) (.bytes [0xFF]) (some (.bool false)) = .ok (.bool true) ∧
+    contains CaseMap.ascii (.bytes [0xFF]) (.bytes [0xFF]) (some (.bool false)) = .ok (.bool true) ∧
+    specStartsWith (downcaseCp CaseMap.ascii (decodeLossy [0xFF]))
+      (downcaseCp CaseMap.ascii (decodeLossy [0xFF])) false = false := by decide
+
+/-- `Α`/`Σ` with the observed classes (`α`, `σ`, `ς` are fixed points: not in the table). -/
+def sigmaMap : CaseMap :=
+  (CaseMap.ofTable [⟨0x391, [0x391], [0x3B1], .cased⟩, ⟨0x3A3, [0x3A3], [0x3C3], .cased⟩]).withAscii
+
+/-- `affix_ci:D_starts_with_final_sigma`. `starts_with` lower-cases char by char (`Σ` ↦ `σ`),
+    `ends_with`/`contains` lower-case each string as a whole (Final_Sigma: word-final `Σ` ↦ `ς`),
+    so the three disagree in both directions: `"ΑΣ"` vs `"ας"`: `starts_with` `false`, the others
+    `true`; `"ΑΣΑ"` vs `"ΑΣ"`: `starts_with` `true`, `contains` `false` (although it is `true`
+    case-sensitively).  Both inputs are valid UTF-8 with single-char lower-casings. -/
+theorem witness_starts_with_ci_sigma :
+    startsWith sigmaMap (.bytes [0xCE, 0x91, 0xCE, 0xA3]) (.bytes [0xCE, 0xB1, 0xCF, 0x82]) (some (.bool false)) = .ok (.bool false) ∧
+    endsWith sigmaMap (.bytes [0xCE, 0x91, 0xCE, 0xA3]) (.bytes [0xCE, 0xB1, 0xCF, 0x82]) (some (.bool false)) = .ok (.bool true) ∧
+    contains sigmaMap (.bytes [0xCE, 0x91, 0xCE, 0xA3]) (.bytes [0xCE, 0xB1, 0xCF, 0x82]) (some (.bool false)) = .ok (.bool true) ∧
+    startsWith sigmaMap (.bytes [0xCE, 0x91, 0xCE, 0xA3, 0xCE, 0x91]) (.bytes [0xCE, 0x91, 0xCE, 0xA3]) (some (.bool false)) = .ok (.bool true) ∧
+    contains sigmaMap (.bytes [0xCE, 0x91, 0xCE, 0xA3, 0xCE, 0x91]) (.bytes [0xCE, 0x91, 0xCE, 0xA3]) (some (.bool false)) = .ok (.bool false) ∧
+    contains sigmaMap (.bytes [0xCE, 0x91, 0xCE, 0xA3, 0xCE, 0x91]) (.bytes [0xCE, 0x91, 0xCE, 0xA3]) none = .ok (.bool true) ∧
+    specStartsWith (downcaseCp sigmaMap (decodeLossy [0xCE, 0x91, 0xCE, 0xA3]))
+      (downcaseCp sigmaMap (decodeLossy [0xCE, 0xB1, 0xCF, 0x82])) false = false ∧
+    specStartsWith (downcaseCp sigmaMap (decodeLossy [0xCE, 0x91, 0xCE, 0xA3, 0xCE, 0x91]))
+      (downcaseCp sigmaMap (decodeLossy [0xCE, 0x91, 0xCE, 0xA3])) true = false ∧
+    singleLower sigmaMap (decodeLossy [0xCE, 0x91, 0xCE, 0xA3, 0xCE, 0x91]) = true := by decide
+
+/-- `İ` (U+0130) is the one char whose lower-case form has two chars: `i̇` = U+0069 U+0307. -/
+def dotMap : CaseMap := (CaseMap.ofTable [⟨0x130, [0x130], [0x69, 0x307], .cased⟩]).withAscii
+
+/-- `affix_ci:D_starts_with_lower_expansion`. One char is compared with one char, so a char whose
+    lower-case expansion has several chars only matches chars with that same expansion:
+    `starts_with("i̇", "İ", case_sensitive: false)` is `false` although `downcase("İ") = "i̇"` is the
+    value itself (`ends_with`/`contains`: `true`).  No `Σ`, valid UTF-8: by
+    `starts_with_ci_sound_partial` the deviation is always a missed match. -/
+theorem witness_starts_with_ci_expansion :
+    startsWith dotMap (.bytes [0x69, 0xCC, 0x87]) (.bytes [0xC4, 0xB0]) (some (.bool false)) = .ok (.bool false) ∧
+    endsWith dotMap (.bytes [0x69, 0xCC, 0x87]) (.bytes [0xC4, 0xB0]) (some (.bool false)) = .ok (.bool true) ∧
+    contains dotMap (.bytes [0x69, 0xCC, 0x87]) (.bytes [0xC4, 0xB0]) (some (.bool false)) = .ok (.bool true) ∧
+    downcase dotMap [0xC4, 0xB0] = [0x69, 0xCC, 0x87] ∧
+    specStartsWith (downcaseCp dotMap (decodeLossy [0x69, 0xCC, 0x87]))
+      (downcaseCp dotMap (decodeLossy [0xC4, 0xB0])) false = false ∧
+    noSigma (decodeLossy [0x69, 0xCC, 0x87]) = true ∧ singleLower dotMap (decodeLossy [0xC4, 0xB0]) = false := by decide
 
 /-- `affix_ci:D_starts_with_panic` (repaired): case-insensitive `starts_with` on a substring that
     is not UTF-8 (a lone continuation byte, a truncated multi-byte sequence) used to panic; it is
@@ -48,6 +100,17 @@ example : upcaseCp strokeMap (strokeMap.toUpper 0x2C65) = strokeMap.toUpper 0x2C
 
 /-- non-vacuity of `starts_with_spec_partial`: valid UTF-8 inputs exist (`"é"`, `"é"`). -/
 example : isValid [0xC3, 0xA9] = true := by decide
+
+/-- non-vacuity of `starts_with_ci_spec_partial` / `starts_with_ci_sound_partial`: the hypotheses
+    hold for `"Ⱥb"` / `"ⱥB"` under the observed table of `Ⱥ`/`ⱥ` (ASCII from the model), and the
+    conclusion is the non-trivial `true`. -/
+example : AsciiLower strokeMap.withAscii := asciiLower_withAscii _
+example :
+    isValid [0xC8, 0xBA, 0x62] = true ∧ isValid [0xE2, 0xB1, 0xA5, 0x42] = true ∧
+    simpleLower strokeMap.withAscii (decodeLossy [0xC8, 0xBA, 0x62]) = true ∧
+    simpleLower strokeMap.withAscii (decodeLossy [0xE2, 0xB1, 0xA5, 0x42]) = true ∧
+    startsWith strokeMap.withAscii (.bytes [0xC8, 0xBA, 0x62]) (.bytes [0xE2, 0xB1, 0xA5, 0x42]) (some (.bool false)) =
+      .ok (.bool true) := by decide
 
 /-- non-vacuity of `merge_spec` / `keys_values_length_spec`: a sorted object. -/
 example : (VMap.cons [0x61] (.int 1) (.cons [0x62] (.obj (.cons [0x63] .null .nil)) .nil)).Sorted = true := by decide
